@@ -93,6 +93,11 @@ def judge(repo, fi, pname, uses, search):
         if m == 'yieldfrom':
             continue
         if m == 'next':
+            if not gen and not search:
+                bad.append((u, 'pulls elements with next() when the '
+                            'operator is *called* (it is not a generator): '
+                            'the source is advanced before any result is '
+                            'requested'))
             continue
         if m == 'star':
             if parent_call_is_lazy(repo, fi, u):
@@ -109,7 +114,12 @@ def judge(repo, fi, pname, uses, search):
                 bad.append((u, 'search loop is followed by code that needs '
                             'the whole source: %s' % why))
                 continue
-            if u.loop_exits and not gen:
+            if u.loop_exits and not gen and search:
+                continue
+            if not gen:
+                bad.append((u, 'loops over the source when the operator is '
+                            '*called* (it is not a generator): elements '
+                            'are consumed before any result is requested'))
                 continue
             bad.append((u, 'loops over the whole source without yielding '
                         'or returning from inside the loop (collects, then '
